@@ -12,12 +12,12 @@ RULE = ('Evaluation = one stage boundary (quiescent point after find_slices / fi
         '(ceilo, dt, height, type) == coerced input after the documented crop rule; in-situ contract on '
         'ncomp_from_gmm (populated labels == ncomp, one label per hit). Workloads: generated scenes x slicing/'
         'grouping/layering parameters, degenerate families (single valid hit, all-NaN, one height, two heights), '
-        'bi-/tri-modal thick groups, > 100 slices with the lowest group split (group ids >= 100), MSA crops. '
+        'identical heights with a slicing min_range of 0 / below the float spacing (D14), a low group whose three mixture components are re-merged into two (component ids not 0-based) below a second split group, bi-/tri-modal thick groups, > 100 slices with the lowest group split (group ids >= 100), MSA crops. '
         'Non-trivial = >= 1 valid hit; distinct = hash of (rows, parameters, stage).')
 ASSUMPTIONS = ['the chunk emptied by the crop (known finding D8, decided by C08) is not generated here']
 REQUIRED = ['single_valid_hit', 'all_nan', 'group_split_in_2', 'group_split_in_3', 'gt100_slices',
             'msa_crop_active', 'groups_fewer_than_slices', 'gt100_slices_with_split',
-            'nonunique_index_labels_with_crop', 'gt10_groups_two_splits', 'range_index_not_from_0_with_crop', 'slices_multiple_of_100_with_split', 'checked_concat_with_crop']
+            'nonunique_index_labels_with_crop', 'gt10_groups_two_splits', 'range_index_not_from_0_with_crop', 'slices_multiple_of_100_with_split', 'checked_concat_with_crop', 'one_height_degenerate_min_range', 'two_split_groups_lower_component_ids_not_0_based']
 SIZES = {'quick': dict(generic=330, bimodal=60, many=4), 'thorough': dict(generic=9000, bimodal=1500, many=40)}
 
 
@@ -33,6 +33,15 @@ def plan(tier, seed):
                           'prm_over': {'MSA': 5000.0, 'MSA_HIT_BUFFER': 500.0} if i % 3 == 0 else {}}})
     for i, kind in enumerate(scenes.DEGENERATE_KINDS * (1 if tier == 'quick' else 12)):
         out.append({'fam': 'degenerate', 's': seed, 'p': NUM, 'i': 200000 + i, 'k': {'kind': kind}})
+    for i, mr in enumerate([0, 0.0, 1e-300, 1e-13, 1e-9] * (1 if tier == 'quick' else 6)):
+        # identical heights and a (documented) minimum range of 0 / below the float spacing at that altitude
+        out.append({'fam': 'degenerate', 's': seed, 'p': NUM, 'i': 250000 + i,
+                    'k': {'kind': 'one_height', 'prm_only_over': True,
+                          'prm_over': {'SLICING_PRMS': {'height_scale_kwargs': {'min_range': mr}}}}})
+    for i in range(18 if tier == 'quick' else 90):
+        # a low group of three sub-layers, two of which are re-merged (3 -> 2 components: the surviving component
+        # ids need not be 0 and 1), below a second split group; the same scenes for every seed
+        out.append({'fam': 'merge3to2', 's': seed, 'p': NUM, 'i': 260000 + i, 'var': i % 3, 'sd': i // 3})
     nref = 17 * (2 if tier == 'quick' else 24)
     for i in range(nref):        # real-world reference scenes of the repository (perturbed), random parameters
         out.append({'fam': 'refdata', 's': seed, 'p': NUM, 'i': 700000 + i,
@@ -71,7 +80,11 @@ def exact_slices_case(desc):
 
 def check(desc):
     from ampycloud.data import CeiloChunk
-    case = exact_slices_case(desc) if desc['fam'] == 'exactslices' else pipeline.materialise(desc)
+    if desc['fam'] == 'merge3to2':
+        case = {'scene': scenes.layered_mock_scene(np.random.default_rng([7, desc['var'], desc['sd']]), scenes.MERGE3TO2_LAYERS[desc['var']]),
+                'prm': {'call': {}, 'glob': {}}}
+    else:
+        case = exact_slices_case(desc) if desc['fam'] == 'exactslices' else pipeline.materialise(desc)
     df = scenes.frame(case['scene'])
     eff = obs.effective(case['prm'])
     res = {'evals': 0, 'nontrivial': [], 'counters': {'runs': 1}, 'case': case, 'viol': []}
@@ -92,6 +105,9 @@ def check(desc):
         except Exception as e:       # decided by C08
             res['counters']['crashed'] = 1
             tags.add('crashed:' + type(e).__name__)
+    if desc['k'].get('prm_only_over') if 'k' in desc else False:
+        if not res['counters'].get('crashed') and ch.data['height'].notna().any():
+            tags.add('one_height_degenerate_min_range')
     if case['scene'].get('index') is not None and 'msa_crop_active' in tags:
         tags.add('nonunique_index_labels_with_crop')
     if not res['counters'].get('crashed') and ch.n_groups is not None and ch.n_groups > 10 and (ch.groups['ncomp'] > 1).sum() >= 2:
@@ -100,6 +116,11 @@ def check(desc):
         tags.add('slices_multiple_of_100')
         if (ch.groups['ncomp'] > 1).any():
             tags.add('slices_multiple_of_100_with_split')
+    if not res['counters'].get('crashed') and ch.n_groups is not None and (ch.groups['ncomp'] > 1).sum() >= 2:
+        gsplit = ch.groups[ch.groups['ncomp'] > 1].sort_values('height_base')
+        low = ch.data.loc[ch.data['group_id'] == gsplit['cluster_id'].iloc[0], 'layer_id'].astype(int)
+        if len(low) and sorted(set(low % 10)) != list(range(low.nunique())):
+            tags.add('two_split_groups_lower_component_ids_not_0_based')
     if case['scene'].get('assemble') == 'checked_concat' and 'msa_crop_active' in tags:
         tags.add('checked_concat_with_crop')
     if case['scene'].get('index_kind') == 'range' and 'msa_crop_active' in tags:
